@@ -22,7 +22,8 @@ var (
 //
 // If z's precision is 0, it is changed to x's precision before the
 // operation. Rounding is performed according to z's precision and
-// rounding mode.
+// rounding mode; and z's accuracy reports the result error relative to the
+// exact (not rounded) result.
 //
 // The function panics if z < 0. The value of z is undefined in that
 // case.
@@ -75,8 +76,11 @@ func (z *Decimal) Sqrt(x *Decimal) *Decimal {
 	// Solve 1/x² - z = 0 instead.
 	z.sqrtInverse(z)
 
-	// restore precision and re-attach halved exponent
-	return z.SetMantExp(z, b/2)
+	// re-attach halved exponent
+	acc := z.acc
+	z.SetMantExp(z, b/2)
+	z.acc = acc
+	return z
 }
 
 // Compute √x (to z.prec precision) by solving
@@ -114,7 +118,7 @@ func (z *Decimal) sqrtInverse(x *Decimal) {
 	//   t2 = t - g(t) = ½t(3 - xt²)
 	u := newDecimal(z.prec)
 	v := newDecimal(z.prec)
-	for prec := z.prec + 2; t.prec < prec; {
+	for prec := z.prec + 6; t.prec < prec; {
 		// be more conservative than big.Float in precision increase
 		// |√z - t| < 10**(-2*t.prec + 2) <= 10**-prec
 		t.prec = t.prec*2 - 2
@@ -126,10 +130,111 @@ func (z *Decimal) sqrtInverse(x *Decimal) {
 		u.Mul(t, v)       // u = t(3 - x.t²)
 		t.Mul(u, oneHalf) // t = ½t(3 - x.t²)
 	}
-	// t = 1/√x
+	// t ≈ 1/√x with a relative error well below 10**-(z.prec+4), so s = x·t
+	// rounded to z.prec+3 digits is within one unit of its last digit of √x.
+	prec := z.prec
+	s := new(Decimal).SetPrec(uint(prec) + 3)
+	s.Mul(x, t)
 
-	// x/√x = √x
-	z.Mul(z, t)
+	// r = s truncated to prec digits
+	r := new(Decimal).SetMode(ToZero).SetPrec(uint(prec)).Set(s)
+	ulp := NewDecimal(1, int(r.exp)-int(prec))
+	rp := new(Decimal).SetPrec(uint(prec) + 1)
+
+	// Fast path: the three guard digits of s tell on which side of every
+	// rounding boundary (…000 and …500) √x lies, unless they are too close to one.
+	if g := s.guardDigits(uint(prec), 3); (10 <= g && g <= 490) || (510 <= g && g <= 990) {
+		inc := false
+		switch z.mode {
+		case ToZero, ToNegativeInf:
+		case AwayFromZero, ToPositiveInf:
+			inc = true
+		default:
+			inc = g > 500
+		}
+		if inc {
+			r.Set(rp.Add(r, ulp))
+		}
+		z.Set(r)
+		z.acc = makeAcc(inc)
+		return
+	}
+
+	// Slow path: find r = ⌊√x⌋ at prec digits (r² <= x < (r+ulp)²) by comparing
+	// squares with x exactly.
+	w := new(Decimal).SetPrec(2*uint(prec) + 4) // holds squares exactly
+	for {
+		if w.Mul(r, r).Cmp(x) > 0 {
+			// predecessor of r at prec digits; subtracting a tenth of an ulp and
+			// truncating also works when r is a power of ten
+			r.Sub(r, NewDecimal(1, int(r.exp)-int(prec)-1))
+			ulp = NewDecimal(1, int(r.exp)-int(prec))
+			continue
+		}
+		rp.Add(r, ulp)
+		if w.Mul(rp, rp).Cmp(x) <= 0 {
+			r.Set(rp)
+			ulp = NewDecimal(1, int(r.exp)-int(prec))
+			continue
+		}
+		break
+	}
+	exact := w.Mul(r, r).Cmp(x) == 0
+
+	// round according to z.mode (√x is positive)
+	inc := false
+	if !exact {
+		switch z.mode {
+		case ToZero, ToNegativeInf:
+			// truncate
+		case AwayFromZero, ToPositiveInf:
+			inc = true
+		default:
+			// compare x with (r + ulp/2)²
+			h := new(Decimal).SetPrec(uint(prec)+1).Add(r, NewDecimal(5, int(r.exp)-int(prec)-1))
+			switch c := x.Cmp(w.Mul(h, h)); {
+			case c > 0:
+				inc = true
+			case c == 0:
+				// tie: only possible if √x has exactly prec+1 digits
+				inc = z.mode == ToNearestAway || r.lastDigitOdd(uint(prec))
+			}
+		}
+	}
+	if inc {
+		r.Set(rp.Add(r, ulp))
+	}
+	z.Set(r)
+	switch {
+	case exact:
+		z.acc = Exact
+	case inc:
+		z.acc = Above
+	default:
+		z.acc = Below
+	}
+}
+
+// guardDigits returns the n digits that follow the prec-th significant digit
+// of x as an integer (digits that are not stored are zeros).
+func (x *Decimal) guardDigits(prec, n uint) (g uint) {
+	digits := uint(len(x.mant)) * _DW
+	for i := uint(1); i <= n; i++ {
+		g *= 10
+		if pos := prec + i; pos <= digits {
+			g += x.mant.digit(digits - pos)
+		}
+	}
+	return g
+}
+
+// lastDigitOdd reports whether the prec-th significant digit of x is odd.
+func (x *Decimal) lastDigitOdd(prec uint) bool {
+	digits := uint(len(x.mant)) * _DW
+	if digits < prec {
+		return false // trailing zeros are not stored
+	}
+	return x.mant.digit(digits-prec)&1 != 0
 }
 
 // newDecimal returns a new *Decimal with space for twice the given
